@@ -298,6 +298,20 @@ class Hist:
         # types that go to a queue only
         return ("msg", a, r.choice([T["SYS_PONG"], T["BM_CV"], T["BM_POSITION"], T["LC_NA"], T["CS_DRIVE_EVENT"], T["STRING"]]), [byte() for _ in range(r.range(5, 9))])
 
+    def train_event(self):
+        """messages about a train or a segment that change no segment address list (speed, dynamic state, drive acknowledgements,
+        current, confidence): the derived train values must not move on them"""
+        r = self.r; c = self.c; k = r.below(6)
+        b = r.choice(sorted(self.where)) if self.where and not r.chance(1, 10) else r.below(len(c.boards))
+        a = self.some_addr(b); byte = lambda: r.choice([0, 1, 2, 0x7F, 0x80, 0xFF, r.below(256)])
+        l, h = self.dcc_known()
+        if k == 0: return ("msg", a, T["BM_SPEED"], [l, h | r.choice([0, 0, 0x80, 0x40]), byte(), byte()])
+        if k == 1: return ("msg", a, T["BM_DYN_STATE"], [byte(), l, h | r.choice([0, 0, 0x80]), r.choice([0, 1, 2, 3, 4, 5, 6, 255]), byte()])
+        if k == 2: return ("msg", a, T["CS_DRIVE_ACK"], [l, h | r.choice([0, 0, 0x80]), r.choice([0, 1, 2, 3, 4, 5, 255])])
+        if k == 3: return ("msg", a, T["CS_DRIVE_MANUAL"], [l, h, r.choice([0, 2, 3, 1, 7]), r.choice([0, 1, 2, 3, 0x3F, 0x1F, 0x40, r.below(256)]), byte(), byte(), byte(), byte(), byte()])
+        if k == 4: return ("msg", a, T["BM_CURRENT"], [self.seg_number(b), r.choice([0, 1, 15, 16, 63, 64, 127, 128, 191, 192, 250, 251, 253, 254, 255, r.below(256)])])
+        return ("msg", a, T["BM_CONFIDENCE"], [r.choice([0, 1, 0xFF]), r.choice([0, 1, 7]), r.choice([0, 1, 0x80])])
+
     def node_event(self):
         r = self.r; c = self.c
         i = r.below(len(c.boards)); B = c.boards[i]
@@ -329,7 +343,8 @@ class Hist:
         for _ in range(n):
             k = r.below(100)
             if k < 8: ev.append(self.node_event())
-            elif self.occ_only or k < 50: ev.append(self.occupancy_event())
+            elif self.occ_only: ev.append(self.occupancy_event() if k < 86 else self.train_event())
+            elif k < 50: ev.append(self.occupancy_event())
             else: ev.append(self.other_event())
             # bursts: the same message kind to the same target again with other field values (what one message leaves behind - flags,
             # lists - must not survive the next one)
